@@ -1,39 +1,83 @@
 PROPS["C15"] = dict(
     harnesses=[dict(name="C15", procs_quick=2, procs_thorough=16, extra=["-lquadmath"])],
-    gens=["gen_auxseries"],
+    gens=["gen_auxseries", "gen_carlson"],
     rule=("auxiliary latitudes: ellipsoids f in {WGS84, +-1/150, 1/297, +-1e-3, 0, 1e-6, random |f| <= 1/150} (series and exact) and b/a log-uniform in "
           "[0.01, 100] plus a list (exact only); geographic latitude: uniform, 90 - 10^-k deg (k <= 15), tangents 10^+-k (k <= 300), denormal tangents and "
           "cotangents, 45 deg +- ulps, unnormalized (y, x) pairs, all four quadrants; for each, the six latitudes are produced by the implementation and all 36 "
-          "(from, to) pairs are converted (exact; series when |f| <= 1/150), plus oddness / fixed points / monotonicity on ulp-neighbours. Ellipsoid: a in "
-          "{1e-3 .. 1e9}, latitudes incl. poles, 90 - 10^-k, denormal and out-of-range. Elliptic: k2 in (0,1), 1 - 10^-(0..12), -10^(-3..6), anchors, "
-          "10^-(0..10), k2 = 1; alpha2 = 0, (0,1), 1 - 10^-(0..10), -10^(-3..5), = k2; phi in each quadrant, +-20 pi, next to and at multiples of pi/2, tiny. "
+          "(from, to) pairs are converted (exact; series when |f| <= 1/150), plus oddness / fixed points / monotonicity on ulp-neighbours; the same angles through "
+          "ToAuxiliary (with derivative), FromAuxiliary (with iteration count), the degree overload of Convert (incl. +-90, +-180, 270, 360, 450, +-540, 720, 1e17 and "
+          "whole turns added), AuxLatitude::axes(a, b), the constructors' rejections, the static WGS84 objects. AuxAngle: (y, x) from the same generator with "
+          "signed zeros, infinities, (0,0), (inf,inf), NaN, components beyond max/2, second operand with zero tangent; Clenshaw sine and cosine sums of 0..8 terms. "
+          "Ellipsoid: a in {1e-3 .. 1e9}, latitudes incl. poles, 90 - 10^-k, denormal and out-of-range, isometric latitudes +-200 and 0, 1e-300, +-1e5. "
+          "Elliptic: k2 in (0,1), 1 - 10^-(0..12), -10^(-3..6), anchors, 10^-(0..10), k2 = 1; alpha2 = 0, (0,1), 1 - 10^-(0..10), -10^(-3..5), = k2; phi in each "
+          "quadrant, +-20 pi, next to and at multiples of pi/2, tiny; (sn, cn) incl. (+-0, +-1), (+-1, +-0); Ed at random angles, all multiples of 90 deg up to "
+          "+-1080 and +-180, +-540, 900, 180 +- ulp, 1e16; every combination of k2, alpha2 in {0, 1, generic, negative} for Reset (both overloads, default "
+          "constructor, rejected parameters); sncndn/am/Einv/deltaEinv at multiples of E and K, tiny arguments, k2 = 1. "
           "Carlson: arguments 10^(-15..15) x common scale 10^(-100..100), zeros allowed by the documentation, equal and nearly equal arguments. "
-          "non-trivial = compared with an oracle value that agrees with itself at two subdivision depths; distinct = distinct (op, leading argument bits)"),
+          "non-trivial = compared with an oracle value that agrees with itself at two subdivision depths, or with the Lean model; distinct = distinct (op, leading argument bits)"),
     tolerances={
         "exact latitude conversion": "relative error of tan(result) <= 16 ulp x (1 + |e'^2| + [chi involved] |psi(phi) - psi(chi)|), e'^2 = e2/(1-e2) (condition of 1 - e2 in the stored e2; of sinh in the isometric-latitude difference); denormal tangents: + 64 quanta x (1 + 1/e) absolute",
         "series latitude conversion": "16 ulp + 8 x max_j Sum_l l |[n^j] C_l| |n|^(L+1) (j in {L-1, L}; computed in Lean from the extracted tables), |f| <= 1/150; series path vs Lean model: 64 ulp per component",
         "Ellipsoid measures": "8-16 ulp x (1 + |e'^2|) vs quadrature / closed forms; degree interfaces: 4 ulp of the angle + 16 ulp of the tangent; other classes: 8 ulp (areas), 64 ulp (equator-to-pole distances, within each class's documented range)",
         "flattening interconversions": "4 ulp vs the Lean formula models; round trips 8 ulp x (1 + condition number of the inverse x (1 + that of the forward function))",
-        "elliptic integrals": "16 ulp x (1 + |integrand sin cos / integral|) vs quadrature; Pi, G, H for alpha2 < 0 relative to max(F, E) (their Carlson representation F + alpha2(...) cancels); periodic parts relative to the two terms of the difference",
-        "Carlson forms": "16 ulp vs quadrature of the defining integral",
+        "elliptic integrals": "16 ulp x (1 + |integrand sin cos / integral|) vs quadrature; Pi, G, H for alpha2 < 0 relative to max(F, E) (their Carlson representation F + alpha2(...) cancels); periodic parts relative to the two terms of the difference; X(phi + pi) - X(phi) = 2 X(): 32 ulp of the terms + the rounding of phi + pi through the integrand",
+        "Carlson forms": "16 ulp vs quadrature of the defining integral; symmetry 8 ulp (RG 32 ulp); RC(x, y) = RF(x, y, y) 8 ulp",
+        "Lean models (m15_* ops)": "|implementation - model value| <= 4 x running-error bound of the model's own binary64 evaluation on the same inputs (FP/RunErr.lean: first-order bound, u per correctly rounded operation, 2u per libm call, computed per input, nothing fitted); iteration counts within +-2; exceptions and NaN-ness equal",
+        "derivative returned by ToAuxiliary": "1e-5 relative against the central difference of the defining expressions (binary128 / quadrature)",
         "oracle": "Gauss-Legendre 32 on panels graded geometrically towards integrand peaks, long double; a case is compared only if depths 1 and 2 agree to 1e-17 (1e-16 Carlson)",
     },
-    level_text=("Table certificates (decide +kernel over exact rationals, re-checked against coeffs[]/ptrs[] of AuxLatitude.cpp extracted on every run): layout of "
-                "ptrs[]/coeffs[] and the aux enum; the six tables among phi, beta, theta equal their closed forms ((-n)^l/l, n^l/l, and the same in m = 2n/(1+n^2)); "
-                "mu<-beta equals the binomial series of the meridian-arc integrand; the chi<-phi and xi<-phi tables satisfy the defining differential equations "
-                "modulo n^(L+1) (xi together with the AuthalicRadiusSquared polynomial); the RectifyingRadius and AuthalicRadiusSquared polynomials equal their closed "
-                "forms; for all 15 pairs the two opposite series compose to the identity modulo n^(L+1) (aux_revert); nine compositions connect every remaining table "
-                "to those (aux_compose_partial) - together these pin all 30 tables. Theorems over the reals about the formula models the driver executes in binary64 "
-                "against the implementation: ellipsoid parameter algebra, the flattening/eccentricity interconversions are mutually inverse on their domains, the series "
-                "path of Convert (fillcoeff + Clenshaw + rotation) is odd and fixes 0 and +-90 deg for every coefficient vector, Carlson duplication-step identities and "
-                "the DLMF 19.36.1-2 polynomial tails. Correspondence only (oracle on the implementation, no theorem): accuracy of the exact conversions, Newton "
-                "inversion, all Ellipsoid measures, all elliptic integrals/functions and Carlson forms against quadrature of their defining integrals. Partial: no "
-                "theorem relates the generating functions/ODEs to the integrals (stated as definitions), aux_compose for all 120 triples is evaluated but not "
-                "kernel-checked, no floating-point error bounds are proved."),
-    level_note=("coeffs[], ptrs[], series order, the aux enum and both radius polynomials regenerated from AuxLatitude.cpp/.hpp each run; hand-written models of the "
-                "Ellipsoid.hpp inline functions and of fillcoeff/Clenshaw; harness oracles in x87 long double / __float128 (libquadmath), independent of the library; "
-                "open findings F38-F42 (accuracy losses in stated argument classes, NaN for denormal tangents) are printed as KNOWN-FINDING"),
-    technique="Lean 4 series-CAS certificates (decide +kernel) for the extracted tables + exact-real theorems on executable formula models + quadrature-oracle correspondence",
+    level_text=("(A) Table certificates (decide +kernel over exact rationals, re-checked against coeffs[]/ptrs[] of AuxLatitude.cpp extracted on every run): layout of "
+                "ptrs[]/coeffs[] and the aux enum; the six tables among phi, beta, theta equal their closed forms; mu<-beta equals the binomial series of the meridian-arc "
+                "integrand; the chi<-phi and xi<-phi tables satisfy the defining differential equations modulo n^(L+1); the two radius polynomials equal their closed "
+                "forms; for all 15 pairs the opposite series compose to the identity modulo n^(L+1) (aux_revert); aux_compose: C[c<-a] = C[c<-b] o C[b<-a] modulo n^(L+1) "
+                "for ALL 120 ordered triples of distinct latitudes, one kernel-checked certificate per triple (split over 28 modules, about 10 s each, rebuilt only when "
+                "the table changes); ind(auxout, auxin) is a bijection of [0,6)^2 onto the 36 slots and -1 elsewhere. "
+                "(B) Constants of EllipticFunction.cpp, re-extracted on every run by a symbolic evaluation of the C++ expressions (Gen/Carlson.lean) and proved equal to "
+                "those of the executed model: the numerator polynomials of the final series of RF, RD, RJ as monomial tables (so an equivalent re-arrangement of the "
+                "Horner form is harmless), their denominators 240240 / 4084080, the multipliers 3 and 6 of the accumulated sums, the weights of the means A0, E2..E5 as "
+                "polynomials in the deviations, the eighth powers of tolRF/tolRD, tolRG0, the three tolJAC, the trip caps and num_; the Horner forms are DLMF 19.36.1-2. "
+                "(C) Theorems over the reals about the SAME definitions the driver executes in binary64 (Model/Elliptic.lean, Model/AuxExact.lean, Model/AuxLat.lean), for "
+                "all inputs and every trip budget: each Carlson trip keeps An the (weighted) mean of the current arguments and divides the deviations by exactly 4 "
+                "(RF, RD, RJ incl. mul3 = mul^3 and delta_{n+1} = delta_n/64), hence X, Y, Z computed from the original arguments are the relative deviations of the "
+                "current ones; non-negative arguments with at most one zero stay positive; a loop left through its test has all |X| < tol and |X|^8 < 3 eps/100; RF is "
+                "symmetric under every permutation, RD in (x, y), RJ in (x, y, z) although the code is not syntactically symmetric; E2..E5 are the elementary symmetric "
+                "functions of the five deviations; RG's permutation makes z the median; RC's circular, hyperbolic and diagonal closed forms satisfy "
+                "RC(x, y) = 2 RC(x + lam, y + lam). sncndn: sn^2 + cn^2 = 1 for every parameter and argument; the descending Landen step preserves "
+                "dn^2 (c^2 + a^2) = c^2 + b^2 along the AGM chain for EVERY depth, the ascending loop produces such a chain, so a seed satisfying the relation gives "
+                "dn^2 = cn^2 + k'^2 sn^2 exactly; the code's seed dn = 1 misses it by exactly ((a_L - b_L)/2)^2 <= (tolJAC a_L / 2)^2 (the identity is therefore NOT exact for "
+                "the code, and is not claimed). The frame of F, E, D, Pi, G, H(sn, cn, dn) is odd in sn and reflects about pi/2 for every kernel even in sn, cn (the six "
+                "Carlson kernels are); the periodic parts delta* have period pi for every X whatsoever; X(phi + pi) = X(phi) + 2 X() for every phi through all four "
+                "branch combinations of the period handling, for every kernel with values in [0, 2X()]; Ed: a turn adds 4E; Einv(x + 2E) = Einv(x) + pi, its reduced "
+                "argument lies in [-E, E), when the Newton loop ends the last iterate satisfies |E(phi) - x| <= tolJAC min(1, |result|) Delta(phi) (relative stopping test of /repo 84b53d7) and a fixed point is a solution; "
+                "deltaEinv has period pi. AuxAngle: normalized() is the unit vector of the same direction, copyquadrant, += is angle addition and the identity for "
+                "zero tangent, radians/lam/lamd invert their static counterparts, degrees() (atan2d with its octant reduction) is the argument in every octant. "
+                "AuxLatitude: the constructor's parameters, axes(a, b) = (a, (a-b)/a) member by member, tan beta = (1-f) tan phi, tan theta = (1-f)^2 tan phi, exact "
+                "conversions among phi, beta, theta multiply the tangent by (1-f)^(to-from), mu = (pi/2) sa/(sa+sb) with the cosine taken from the complementary arc, the "
+                "cancellation-free form of tan chi for f > 0 equals the taupf expression (sigma < tan phi / 2 branch; prolate: used directly), the authalic pair has "
+                "modulus q(pi/2) for every Dq kernel satisfying its defining relation, FromAuxiliary's Newton loop: an exit through the equality test is a solution, a "
+                "converged exit is one plain Newton step, the count is bounded. Ellipsoid: QuarterMeridian = (pi/2) RectifyingRadius(exact) = 2 RG(a^2, b^2), "
+                "Area = 4 pi AuthalicRadiusSquared(exact) = 2 pi (a^2 + b^2 asinh(e')/e) resp. atan(e)/e resp. 4 pi a^2, Euler's formula for the normal curvature radius, "
+                "M = N(1-e^2)/(1-e^2 sin^2), CircleRadius = N cos phi, CircleHeight = N(1-e^2) sin phi (a point of the ellipse), the parameter algebra and the "
+                "flattening/eccentricity interconversions with their inverses; the series path of Convert is odd and fixes 0, +-90 deg for every coefficient vector. "
+                "(D) Correspondence, every run: the models of every Carlson form, Reset (all special cases, both overloads), sncndn, am, Delta, the (sn, cn, dn) and "
+                "angle interfaces with their periodic parts, Ed, Einv, deltaEinv, every AuxAngle function, the AuxLatitude constructors, ToAuxiliary with derivative, "
+                "FromAuxiliary with count, exact Convert for all 36 pairs, the degree overload's turn bookkeeping, Clenshaw (sine and cosine), and the Ellipsoid measures "
+                "are executed in running-error arithmetic on the inputs the harness gives the implementation and must agree within 4 x the bound. "
+                "(E) Oracles on the implementation (no theorem): accuracy of all of the above against quadrature of the defining integrals / closed forms in 80-bit and "
+                "binary128, closures, symmetries, Legendre's relation, monotonicity, cross-class agreement. "
+                "NOT proved: the duplication theorem itself and that the generating functions / ODEs are the integrals (no measure theory); the series remainder bound "
+                "beyond the stated |X|^8 < 3 eps/100; the divided-difference branch of Conformal and the closed form of Dq (kernels with contracts); am; Legendre's relation "
+                "(oracle); no floating-point error bound is a theorem (running-error bounds are computed, not proved)."),
+    level_note=("coeffs[], ptrs[], series order, the aux enum, both radius polynomials (AuxLatitude.cpp/.hpp) and the Carlson series tables, means, E-definitions, "
+                "tolerances, trip caps, num_ (EllipticFunction.cpp/.hpp) regenerated each run; hand-written models of EllipticFunction, AuxAngle, AuxLatitude (series and "
+                "exact), Ellipsoid; Math::sincosd/sind/AngNormalize are not modelled here (C16): the degree interfaces take their values from the implementation; "
+                "the signbit(_kp2) branch of sncndn is unreachable (Reset rejects kp2 < 0) and not modelled; harness oracles in x87 long double / __float128 "
+                "(libquadmath), independent of the library; open findings F38, F38b, F40, F41 (am only; the Einv half was repaired by /repo 84b53d7 = F93 and the model follows), F42(rest) "
+                "(accuracy losses in stated argument classes, NaN for denormal / near-overflow tangents) are printed as KNOWN-FINDING"),
+    technique=("Lean 4: series-CAS certificates (decide +kernel) for the extracted tables, exact-real theorems (induction over loop budgets and AGM stacks) on executable "
+               "polymorphic models, execution of the same models in running-error arithmetic against the implementation, quadrature-oracle correspondence"),
     assumptions=["the closed forms / differential equations used as specifications of the latitudes are the textbook definitions (Karney 2024, eqs. for beta, theta, mu, chi, xi)",
-                 "truncation of the order-L series is bounded by 4 x the last retained coefficients (growth allowance) - used only as a tolerance"],
+                 "truncation of the order-L series is bounded by 4 x the last retained coefficients (growth allowance) - used only as a tolerance",
+                 "Carlson's duplication theorem and DLMF 19.36.1-2 (the series the loops feed) are taken from the literature; the theorems cover the algebra of the algorithm, not the integral identities",
+                 "libm calls are faithful to 1 ulp (running-error rule); Lean's Float calls the same libm as the harness"],
 )
